@@ -510,6 +510,6 @@ func TestC10(t *testing.T) {
 	replayKnown(t, "C10")
 	scratch, _ := os.MkdirTemp(env.Out, "c10")
 	defer os.RemoveAll(scratch)
-	rapidSetup(env.Pick(2400, 60000), 10)
+	rapidSetup(env.Pick(2400, 300000), 10)
 	rapid.Check(t, c10Check(rec, scratch))
 }
